@@ -24,11 +24,18 @@ def run(ctx):
     r3, weak = sessions.generate(ctx, "c02c", {"Templates": sessions.ALL_TEMPLATES, "NoiseSet": NOISE, "MaxEdits": 2, "EditKinds": '{"WeakPoint", "SetAlgorithm"}',
                                                "KeepNet": 11 if q else 3, "KeepEdit": 1, "Seed": ctx.seed})
     weak = [s for s in weak if s["edits"][0]["e"]["k"] == "WeakPoint" and s["edits"][1]["e"]["k"] == "SetAlgorithm"]
+    # WeakPoint 3, 4: the weight of the tying observations is below sqrt(machine epsilon) relative to the others
+    tiny = [s for s in weak if s["edits"][0]["e"]["s"] >= 3]
+    weak = [s for s in weak if s["edits"][0]["e"]["s"] <= 2]
     weak = weak[:: max(1, len(weak) // (400 if q else 6000))]
+    tiny = tiny[:: max(1, len(tiny) // (200 if q else 3000))]
     ctx.note("SurveySession: %d SetAlgorithm sessions, %d mixed sessions, %d WeakPoint + SetAlgorithm sessions" % (len(one), len(multi), len(weak)))
     st1, _, _ = sessions.run_sessions(ctx, one, truth=False, laws=True)
     st2, _, _ = sessions.run_sessions(ctx, multi, truth=False, laws=True)
     st3, _, _ = sessions.run_sessions(ctx, weak, truth=False, laws=True)
+    st4, _, _ = sessions.run_sessions(ctx, tiny, truth=False, laws=True, sigprefix="weaktiny_")
+    for k_ in ("runs", "law_checks"):
+        st3[k_] += st4[k_]
     for k_ in ("runs", "law_checks"):
         st2[k_] += st3[k_]
     # findings that belong to the MirrorAxes law of C07 are not C02's business
@@ -39,7 +46,7 @@ def run(ctx):
     if one:
         ctx.sample({"net": {k: one[0]["net"][k] for k in ("t", "axes", "noise")}, "edit": one[0]["edits"][0]["e"]})
     ctx.assume("'same' = 1e-8 relative at the API (well-conditioned exact universe), 3e-6 m / 3e-7 gon / 5e-5 relative on printed results")
-    return {"evaluations": a["cases"] * 8 + lv["runs"] + st1["runs"] + st2["runs"], "distinct_nontrivial": a["nontrivial"] + len(one) + len(multi) + len(weak),
+    return {"evaluations": a["cases"] * 8 + lv["runs"] + st1["runs"] + st2["runs"], "distinct_nontrivial": a["nontrivial"] + len(one) + len(multi) + len(weak) + len(tiny),
             "rule": "LsqCases cases x 8 entry points pairwise; levelling networks x 4 algorithms; SurveySession sessions with SetAlgorithm edits; "
                     "non-trivial = rank deficient / correlated (API) or noisy network (sessions)",
             "api_checks_evaluated": a["nchecks"], "levelling": lv, "law_checks": st1["law_checks"] + st2["law_checks"],
